@@ -32,6 +32,7 @@ MC_BYTESCURSOR = dict(module="MC_BytesCursor", cfg="MC_BytesCursor.cfg", workers
 MC_IOADAPTERS = dict(module="MC_IoAdapters", cfg="MC_IoAdapters.cfg", workers=2)
 
 MC_DECODER_LONG = dict(module="MC_Decoder", cfg="MC_Decoder_long.cfg", workers=8, timeout=2400, tiers=["thorough"])
+MC_DECODER_CHUNK = dict(module="MC_Decoder", cfg="MC_Decoder_chunk.cfg", workers=8, timeout=3000, tiers=["thorough"])
 
 PROPS = {
     "C20": dict(level="model_checking", mc=[MC_FORMAT], steps=[dict(kind="custom", fn="feature_builds")],
@@ -49,7 +50,7 @@ PROPS = {
         rule="enum definitions over {index attribute, explicit discriminant, implicit position, skip} with indices in {0,1,2,255,256,300}, enumerated by TLC, "
              "sampled by seed, each invalid one paired with a minimally different valid twin, plus the finite attribute-conflict / union / CompactAs / 256-vs-257 cases; "
              "each program is its own compilation target; distinct by definition"),
-    "C09": dict(level="model_checking", mc=[MC_DECODER], steps=[trace(1, 3), dict(kind="apalache", module="Ind_Chunk")]),
+    "C09": dict(level="model_checking", mc=[MC_DECODER, MC_DECODER_CHUNK], steps=[trace(1, 3), dict(kind="apalache", module="Ind_Chunk")]),
     "C10": dict(level="fault_enumeration", mc=[MC_LEDGER],
         evidence_extra=dict(exhaustive_subspaces=["every (shape, size 0..4, fault position, fault kind) vector of the ledger machine, each replayed on the real decoder"]),
         steps=[
